@@ -37,6 +37,12 @@ def run(ctx, rep):
     except Exception as e:
         import traceback; traceback.print_exc()
         rep.fail("R19.10", "engine", "slot analysis crashed: %r" % (e,), status="undecided")
+    try:
+        from rules import c01 as _c01
+        _c01.target_independent(prog, rep, "R01.7")      # a triangle / polyline renderer that stops at "the last visible row"
+    except Exception as e:
+        import traceback; traceback.print_exc()
+        rep.fail("R01.7", "engine", "target independence analysis crashed: %r" % (e,), status="undecided")
     winding_symmetry(prog, rep)
     polyline_points(prog, rep)
     outline_runs(prog, rep)
